@@ -222,13 +222,13 @@ def create_case(row, idx):
                 elif row['fn'] == 'create_array':
                     okv = y.shape == (3, 2) and (y[:] == 7).all() and len(y.metadata) == 0
                 elif row['fn'] == 'asraggedarray':
-                    okv = len(y) == 2 and list(y[0]) == [9, 8] and list(y[1]) == [7]
+                    okv = len(y) == 2 and list(y[0]) == [9, 8] and list(y[1]) == [7] and len(y.metadata) == 0
                 elif row['fn'] == 'create_raggedarray':
-                    okv = len(y) == 0 and y.atom == (2,)
+                    okv = len(y) == 0 and y.atom == (2,) and len(y.metadata) == 0
                 elif row['fn'] == 'copy_array':
                     okv = y[:].tobytes() == src[:].tobytes() and dict(y.metadata) == {'s': 1}
                 elif row['fn'] == 'copy_ragged':
-                    okv = len(y) == 3 and list(y[0]) == [1, 2, 3] and len(y[1]) == 0
+                    okv = len(y) == 3 and list(y[0]) == [1, 2, 3] and len(y[1]) == 0 and len(y.metadata) == 0
                 if not okv:
                     bad.append(('new occupant', 'reads back as created', 'different'))
             except Exception as e:
